@@ -102,6 +102,8 @@ def worker(i):
                     r["checks"][p] = {"exit": rc, "s": round(time.time() - t1), "violations": viol[:2], "detail": [x[:400] for x in detail],
                                       "tail": o[-1500:] if rc == 2 else ""}
             sh("git checkout -q -- . && git clean -fdq -e target", repo)
+            # (a check that found a violation keeps its traces: not needed here, and the disk is small)
+            sh("rm -rf out/work out/replays out/tlc out/apalache", verif)
             if MODE not in ("detect", "benign"):
                 rc, o = sh(f"bash {d}/demo/run.sh", repo, timeout=1200)
                 r["demo_without_patch_exit"] = rc
